@@ -11,7 +11,7 @@ INDICATORS = ["Muss", "M", "muss", "m", "Soll", "S", "s", "Kann", "K", "k", "X",
 def streams(ctx):
     """(string, oracle tokens or None) for the condition language"""
     rng = ctx.rng
-    out = []
+    out = [(s, None) for s in strings.regression_strings()]
     for toks in strings.token_sequences(4 if ctx.quick else 5):
         out.append(c01.render(rng, toks))
     for _ in range(400 if ctx.quick else 6000):
@@ -59,6 +59,7 @@ def run(ctx):
         ctx.dist("condition.outcome", "tree" if r[0] == "ok" else r[1])
         if r[0] == "exn" and r[1] != "SyntaxErr":
             ctx.fail(f"cond|{s}", {"entry": "parse_condition_expression_to_tree", "string": s}, "Tree or SyntaxError", r[1], "oracle: only SyntaxError may escape")
+        acc = None
         if otoks is not None:
             try:
                 pyparse.parse(otoks)
@@ -66,6 +67,9 @@ def run(ctx):
             except pyparse.Reject:
                 acc = False
             n_nontrivial += 1
+        elif isinstance(s, str):
+            acc = pyparse.accepts(s)   # any string: an independent reading of the documented lexical rules and grammar
+        if acc is not None:
             if acc != (r[0] == "ok"):
                 ctx.fail(f"cond-accept|{s}", {"entry": "parse_condition_expression_to_tree", "string": s}, "accepted" if acc else "SyntaxError", "accepted" if r[0] == "ok" else r[1], "oracle: accepted language = documented language")
     n, bad, err = runner.run_case_files("C02", c01.IMPORTS, "parse_case", "parse_check", terms)
